@@ -564,6 +564,22 @@ func (x *Exec) evalPseudo(name string, n *ast.CallExpr, st *State, env *Env) (Va
 			panic(unsupported(name + "() of a handle without ghost state: " + exprString(n.Args[0])))
 		}
 		return v, true
+	case "recvd", "envat": // recvd(ch): the values received so far on a channel this call made; envat(ch, k): the k-th value of its environment stream
+		h := x.eval(n.Args[0], st, env)
+		u, isCh := h.Ty.Underlying().(*types.Chan)
+		if !isCh {
+			panic(unsupported(name + "() of a non-channel"))
+		}
+		es := x.c.sortOf(u.Elem())
+		fe, ok := st.gh["famenv:"+es]
+		if !ok {
+			panic(unsupported(name + "(): no channel family of that element type in this function"))
+		}
+		if name == "envat" {
+			k := x.defaultType(x.eval(n.Args[1], st, env))
+			return Val{T: app("select", app("select", fe.T, h.T), k.T), Ty: u.Elem()}, true
+		}
+		return Val{Seq: &SeqVal{Arr: app("select", fe.T, h.T), N: app("select", st.gh["famrecvn:"+es].T, h.T), Elem: u.Elem(), ESort: es}}, true
 	case "lines", "linepos":
 		h := x.eval(n.Args[0], st, env)
 		key := "scan:" + x.c.resolveAlias(h.T)
